@@ -1,5 +1,6 @@
 import MqttVerif.Conn.Lemmas.TimersAccept
 import MqttVerif.Conn.Lemmas.TimersSend
+import MqttVerif.Conn.Lemmas.TimersRearm
 /-!
 # C15 — keep-alive timer requests are consistent and complete
 
@@ -141,11 +142,13 @@ theorem C15_disconnect_sent_unarms (cfg : Cfg) (s : St) (p : Pkt) (hk : p.kind =
     (∃ e, step cfg s (.send p) = C.err { cfg := cfg, s := s } e) ∨
     ((step cfg s (.send p)).s.status = .disconnected ∧ flagsOf (step cfg s (.send p)).s = unarmed ∧
      (step cfg s (.send p)).ev = cancelEvs (flagsOf s) ++ [.send p none, .close]) := by
+  have href : ∀ (c : C) (e : Nat), refuseSend c e p = c.err e := by
+    intro c e; simp [refuseSend, initiatingId, hk]
   simp only [step, send]
   split
-  · exact .inl ⟨_, rfl⟩
+  · exact .inl ⟨_, href _ _⟩
   split
-  · exact .inl ⟨_, rfl⟩
+  · exact .inl ⟨_, href _ _⟩
   simp only [processSend, hk]
   split
   · unfold psV3Disconnect
@@ -493,15 +496,31 @@ theorem C15_client_rearms_after_send_partial (cfg : Cfg) (s : St) (p : Pkt)
       simp at this
       simp [this]
 
-/-- the exception (finding #26): stored packets a client resends on a *received* CONNACK
-    (session present) are not followed by a re-arm.  `C15_client_rearms_full` is the property for
-    every call; it is false. -/
+/-- **C15 (4), the full statement** — in **every** call (not only `send`: also a received packet
+    answered automatically, a received CONNACK(session present) that makes the client resend its
+    stored packets, a timer expiry that sends PINGREQ), from **every** state: after every
+    `RequestSendPacket` of the call a re-arm `RequestTimerReset(PingreqSend, interval)` with the
+    priority interval follows, provided the endpoint ends the call as a client that is not
+    disconnected with a non-zero interval.
+
+    Before fix 999e935 this was false (finding #26: the stored packets a client resends on a
+    *received* CONNACK were not followed by a re-arm — the former theorem
+    `C15_client_rearms_full_false` with the `decide`d witness
+    `C15_resend_on_connack_no_rearm_witness`: events `[send stored, recv connack]`); the same
+    scenario is now `C15_resend_on_connack_rearm_witness` below. -/
 def C15_client_rearms_full : Prop :=
   ∀ (cfg : Cfg) (s : St) (op : Op) (pre post : List Ev) (q : Pkt) (rel : Option Nat),
     (step cfg s op).ev = pre ++ .send q rel :: post →
     (step cfg s op).s.isClient = true → (step cfg s op).s.status ≠ .disconnected →
     pingInterval (step cfg s op).s > 0 →
     .timerReset .pingreqSend (pingInterval (step cfg s op).s) ∈ post
+
+/-- fixed by 999e935: the full statement holds (`step_rs`: every path of every handler that
+    requests a packet for sending ends in `send_post_process`, or leaves the endpoint
+    disconnected, or is not a client's) -/
+theorem C15_client_rearms_full_holds : C15_client_rearms_full := by
+  intro cfg s op pre post q rel he hc hs hi
+  exact step_rs cfg s op hc hs hi pre post q rel he
 
 def exStoredPublish : Pkt := { ver := 4, kind := .publish, qos := 1, pid := some 1, dup := true, topic := [97] }
 def exConnackSP : Pkt := { ver := 4, kind := .connack, rc := some 0, sp := true }
@@ -513,23 +532,26 @@ def exResumingClient : St :=
     store := [(1, exStoredPublish)], puback := [1]
     pidMan := (Alloc.useValue (Alloc.new 1 65535 65535) 1).2 }
 
-theorem C15_resend_on_connack_no_rearm_witness :
+/-- fixed by 999e935 (was `C15_resend_on_connack_no_rearm_witness`, the refutation of
+    `C15_client_rearms_full`): the retransmission on a received CONNACK(session present) is now
+    followed by the re-arm of the PINGREQ timer, before the CONNACK is delivered -/
+theorem C15_resend_on_connack_rearm_witness :
     (step ⟨.client, 2⟩ exResumingClient (.recv [0x20, 2, 1, 0] (fun _ _ _ => .ok exConnackSP))).ev
-      = [.send exStoredPublish none, .recv exConnackSP] ∧
+      = [.send exStoredPublish none, .timerReset .pingreqSend 10000, .recv exConnackSP] ∧
     (step ⟨.client, 2⟩ exResumingClient (.recv [0x20, 2, 1, 0] (fun _ _ _ => .ok exConnackSP))).s.status
       = .connected ∧
+    (step ⟨.client, 2⟩ exResumingClient (.recv [0x20, 2, 1, 0] (fun _ _ _ => .ok exConnackSP))).s.sendSet
+      = true ∧
     pingInterval
       (step ⟨.client, 2⟩ exResumingClient (.recv [0x20, 2, 1, 0] (fun _ _ _ => .ok exConnackSP))).s
       = 10000 := by
   decide
 
-theorem C15_client_rearms_full_false : ¬ C15_client_rearms_full := by
-  intro h
-  have w := C15_resend_on_connack_no_rearm_witness
-  have := h ⟨.client, 2⟩ exResumingClient (.recv [0x20, 2, 1, 0] (fun _ _ _ => .ok exConnackSP))
-    [] [.recv exConnackSP] exStoredPublish none (by rw [w.1]; rfl) (by decide) (by rw [w.2.1]; decide)
-    (by rw [w.2.2]; decide)
-  simp at this
+/-- nothing stored to resend: no re-arm is requested by the CONNACK -/
+example :
+    (step ⟨.client, 2⟩ { exResumingClient with store := [], puback := [] }
+      (.recv [0x20, 2, 1, 0] (fun _ _ _ => .ok exConnackSP))).ev = [.recv exConnackSP] := by
+  decide
 
 -- non-vacuity of (4): override beats Server Keep Alive beats keep-alive; 0 disables
 example : (step ⟨.client, 2⟩ exConnectedClient (.send (mkAck ⟨.client, 2⟩ 4 .puback 7))).ev
